@@ -21,6 +21,15 @@ Qed.
 Lemma add_pass_pend x fs fr : pend_names (fund (add_pass x fs fr)) = pend_names (fund fr).
 Proof. unfold add_pass. destruct (existsb _ _); [reflexivity|]. cbn. rewrite pend_names_app. cbn. apply app_nil_r. Qed.
 
+Lemma add_pass_narg x fs fr n :
+  (n <= length (fund fr))%nat ->
+  (n <= length (fund (add_pass x fs fr)))%nat /\ firstn n (fund (add_pass x fs fr)) = firstn n (fund fr).
+Proof.
+  intros H. unfold add_pass. destruct (existsb _ _); [split; [exact H|reflexivity]|]. cbn [fund set_fund]. split.
+  - rewrite app_length. lia.
+  - rewrite firstn_app. replace (n - length (fund fr))%nat with O by lia. cbn [firstn]. apply app_nil_r.
+Qed.
+
 Lemma shape_declare x decl zpre T prT zpost :
   shape (map (pass_frame x (fid T)) zpre ++ (decl_frame T decl x, prT) :: zpost) = shape (zpre ++ (T, prT) :: zpost).
 Proof.
@@ -73,7 +82,8 @@ Proof.
         cbn [pass_ok]. rewrite E2, Hg1. split; [exact Hg2|]. apply pass_ok_pre; assumption.
     + unfold dnames. rewrite E3. exact K5.
     + rewrite add_pass_pend. exact K6.
-    + rewrite E4. exact K7.
+    + rewrite E4. destruct K7 as [K7a K7b]. destruct (add_pass_narg x (fid T) g (fnarg g) K7a) as [N1 N2].
+      split; [exact N1|rewrite N2; exact K7b].
     + rewrite E1. exact K8.
 Qed.
 
@@ -214,6 +224,7 @@ Lemma L_decl_var a z decl x :
          (forall g, In g zpre' -> fisfunc (fst g) = false) /\ fisfunc T' = true /\
          In x (dnames T') /\ (forall y, In y (dnames T) -> In y (dnames T')) /\
          (forall y, In y (dnames T') -> In y (dnames T) \/ y = x) /\
+         (forall e, In e (fund T') -> In e (fund T)) /\
          (forall g g', In (g, g') (combine zpre zpre') -> forall y, In (UPend y) (fund (fst g')) <-> In (UPend y) (fund (fst g)))).
 Proof.
   intros A Hd Hv.
@@ -252,6 +263,7 @@ Proof.
     destruct (add_pass_shape x (fid T) (fst g0)) as (_ & -> & _). apply Hpre. exact Hg0. }
   split; [destruct (decl_frame_shape T decl x) as [_ ->]; exact HfT|].
   split; [apply decl_frame_in|]. split; [intros y; apply decl_frame_mono|]. split; [intros y; apply decl_frame_new|].
+  split; [intros e; apply decl_frame_fund_in|].
   intros g g' Hin y. clear -Hin. revert Hin. induction zpre as [|[h ph] rest IH]; cbn; [tauto|].
   intros [E|Hin]; [|apply IH; exact Hin]. inversion E; subst. cbn [fst pass_frame]. split.
   - intros H. apply add_pass_fund_inv in H. destruct H as [H|H]; [exact H|discriminate].
